@@ -27,7 +27,10 @@ Lemma pins_naming_options :
                              "Unrecognized option: `python-gapic-"; "`."]
   /\ gapic_prefix = "python-gapic-"
   /\ invalid_module_extra = ["metadata"; "request"; "retry"; "timeout"]
-  /\ file_to_generate_exprs = ["fd.package.startswith(package)"; "proto.file_to_generate"]
+  /\ file_to_generate_exprs = ["in_package(fd.package)"; "proto.file_to_generate"]
+  /\ in_package_src = "not package or proto_package == package or proto_package.startswith(package + '.')"
+  /\ subpackage_elts = ["p.meta.address.subpackage[level]"]
+  /\ opt_split_first = true
   /\ forallb (fun k => negb (starts_with gapic_prefix k)) opt_flags = true
   /\ forallb (fun k => mem_str k consumed_keys) opt_flags = true
   /\ forallb (fun k => negb (ends_with "_" k)) invalid_module_names = true.
@@ -168,28 +171,49 @@ Qed.
 Lemma unknown_option_alone raw : contains ","%char raw = false -> unknown_option raw = true -> options_build raw = options_build "".
 Proof. exact (unknown_option_alone_gen opt_split_first raw). Qed.
 
-(* the statement is false of the code that splits at every "=" without the restriction: an option that is not meant for this
-   generator at all makes Options.build fail (DESIGN section 9 no. 19); it is true of the code that splits once *)
-Lemma unknown_option_refuted_gen :
-  exists raw k v, split_on "="%char raw = k :: v /\ mem_str k opt_flags = false /\ starts_with gapic_prefix k = false /\
-                  options_build_gen false raw = Err EBadOption /\ options_build_gen false ("metadata," ++ raw) = Err EBadOption /\
-                  unknown_option_gen true raw = true.
-Proof. exists "foo=a=b", "foo", ["a"; "b"]. vm_compute. repeat split. Qed.
-Lemma unknown_option_refuted : opt_split_first = false ->
-  exists raw k v, split_on "="%char raw = k :: v /\ mem_str k opt_flags = false /\ starts_with gapic_prefix k = false /\
-                  options_build raw = Err EBadOption /\ options_build ("metadata," ++ raw) = Err EBadOption.
+(* every option whose KEY (the text before the first "=", blanks stripped) is neither a flag of the generator nor prefixed
+   python-gapic- is such an unknown option, whatever its value — values containing "=" included (the code splits once) *)
+Definition neq_eq (c : ascii) : bool := negb (Ascii.eqb c "="%char).
+Definition key_of (raw : string) : string := stake_while neq_eq (strip_ws raw).
+Definition unknown_key (raw : string) : bool :=
+  negb (mem_str (key_of raw) opt_flags) && negb (starts_with gapic_prefix (key_of raw)).
+Lemma split_on_acc_head c s : forall acc, exists tl,
+  split_on_acc c s acc = (srev acc ++ stake_while (fun a => negb (Ascii.eqb a c)) s) :: tl.
 Proof.
-  intro H. destruct unknown_option_refuted_gen as (raw & k & v & H1 & H2 & H3 & H4 & H5 & _).
-  exists raw, k, v. unfold options_build. rewrite H. auto.
+  induction s as [|a s IH]; intros acc; cbn [split_on_acc stake_while].
+  - exists []. now rewrite sapp_nil_r.
+  - destruct (Ascii.eqb a c); cbn [negb].
+    + eexists. now rewrite sapp_nil_r.
+    + destruct (IH (String a acc)) as [tl E]. exists tl. rewrite E, srev_cons, sapp_assoc. reflexivity.
+Qed.
+Lemma split_first_shape s : split_first "="%char s = [stake_while neq_eq s] \/ exists v, split_first "="%char s = [stake_while neq_eq s; v].
+Proof.
+  unfold split_first, split_on. destruct (split_on_acc_head "="%char s "") as [tl E]. rewrite E. cbn [srev srev_acc append].
+  destruct tl as [|y tl]; [left; reflexivity | right; eexists; reflexivity].
+Qed.
+Lemma unknown_key_option raw : unknown_key raw = true -> unknown_option_gen true raw = true.
+Proof.
+  unfold unknown_key, unknown_option_gen, key_of, split_eq. intro H.
+  destruct (split_first_shape (strip_ws raw)) as [E|[v E]]; rewrite E; exact H.
+Qed.
+Lemma unknown_key_ignored l1 raw l2 :
+  Forall (fun x => contains ","%char x = false) (l1 ++ raw :: l2) -> (l1 ++ l2)%list <> [] -> unknown_key raw = true ->
+  options_build (sjoin "," (l1 ++ raw :: l2)) = options_build (sjoin "," (l1 ++ l2)).
+Proof.
+  intros Hc Hne Hk. change options_build with (options_build_gen true).
+  apply unknown_options_ignored_gen; auto using unknown_key_option.
+Qed.
+Lemma unknown_key_alone raw : contains ","%char raw = false -> unknown_key raw = true -> options_build raw = options_build "".
+Proof.
+  intros Hc Hk. change options_build with (options_build_gen true). apply unknown_option_alone_gen; auto using unknown_key_option.
 Qed.
 
 Example unknown_option_examples :
-  unknown_option_gen false "foo=bar" = true /\ unknown_option_gen false " Mgoogle/api/x.proto=pkg " = true
-  /\ unknown_option_gen false "" = true /\ unknown_option_gen false "metadata" = false
-  /\ unknown_option_gen false "python-gapic-name=x" = false /\ unknown_option_gen false "foo=a=b" = false
-  /\ unknown_option_gen true "foo=a=b" = true /\ unknown_option_gen true "transport=a=b" = false
-  /\ options_build_gen false "transport=rest,foo=bar,metadata" = options_build_gen false "transport=rest,metadata"
-  /\ options_build_gen true "transport=rest,foo=a=b,metadata" = options_build_gen true "transport=rest,metadata".
+  unknown_key "foo=bar" = true /\ unknown_key " Mgoogle/api/x.proto=pkg=alias " = true /\ unknown_key "foo=a=b" = true
+  /\ unknown_key "" = true /\ unknown_key "=" = true /\ unknown_key "metadata" = false /\ unknown_key "transport=a=b" = false
+  /\ unknown_key "python-gapic-name=x" = false
+  /\ options_build "transport=rest,foo=a=b,metadata" = options_build "transport=rest,metadata"
+  /\ on_ok (options_build "transport=a=b") (fun o => sl_eqb (o_transport o) ["a=b"]) = true.
 Proof. vm_compute. repeat split. Qed.
 
 (* ------------------------------------------------------------------ finite facts about the template lists *)
@@ -308,13 +332,16 @@ Proof. induction l as [|y l IH]; simpl; [tauto|]. rewrite sinsert_in, IH. intuit
 Lemma protos_of_incl a view u : In u (protos_of a view) -> In u (ra_protos a) /\ is_prefix_list view (u_sub u) = true.
 Proof. unfold protos_of. rewrite filter_In. tauto. Qed.
 
+Lemma skipn_in {A} n (l : list A) x : In x (skipn n l) -> In x l.
+Proof. revert l. induction n as [|n IH]; intros l H; [exact H|]. destruct l; [exact H|]. right. now apply IH. Qed.
 Lemma sub_names_word a old view n : wf_rapi a old -> In n (sub_names a view) -> word n.
 Proof.
   intros W H. unfold sub_names in H. apply in_flat_map in H as (u & Hu & H).
   apply protos_of_incl in Hu as [Hu _].
   pose proof (wf_protos a old W) as Hp. rewrite Forall_forall in Hp. destruct (Hp u Hu) as (_ & Hsub & _).
-  destruct (_ && _); [|contradiction]. destruct (u_sub u) as [|x l]; [contradiction|].
-  destruct H as [<-|[]]. now inversion Hsub.
+  destruct (_ && _); [|contradiction].
+  destruct (skipn (List.length view) (u_sub u)) as [|x l] eqn:E; [contradiction|].
+  destruct H as [<-|[]]. rewrite Forall_forall in Hsub. apply Hsub. apply (skipn_in (List.length view)). rewrite E. now left.
 Qed.
 
 Lemma subviews_word a old view v : wf_rapi a old -> Forall word view -> In v (subviews a view) -> Forall word v.
@@ -1038,44 +1065,197 @@ Proof.
   destruct (tpl_insts_view a o tpl i Hi) as (<- & _). auto.
 Qed.
 
-(* exactly the target protos get a types module: each target proto has an instance of the types template, in its own
-   sub-package, and every instance of a per-proto template is one of these *)
-Lemma one_types_module_per_target_proto a o l : shallow a -> instances default_templates a o = Ok l ->
-  (forall u, In u (ra_protos a) -> In (mk_inst types_tpl (u_sub u) None (Some (u_module u))) l) /\
-  (forall i, In i l -> i_proto i <> None ->
-             exists u, In u (ra_protos a) /\ i = mk_inst types_tpl (u_sub u) None (Some (u_module u))).
+(* ---- rendering for sub-package views of ANY depth ---- *)
+Lemma collect_ok_all {A} (l : list (res (list A))) r : collect l = Ok r -> forall x, In x l -> exists rx, x = Ok rx.
 Proof.
-  intros Hs Hl. destruct types_tpl_facts as (Hin & Hp & Hsub & Hg & Honly). split.
-  - intros u Hu. rewrite (instances_shallow _ a o l Hs Hl). apply in_flat_map. exists types_tpl. split; [assumption|].
-    apply proto_in; auto.
-  - intros i Hi Hnone. destruct (in_instances_tpl _ a o l i Hs Hl Hi) as [Ht Hti].
-    destruct (tpl_insts_kind a o (i_tpl i) i Hti) as [_ Kp].
-    assert (Hpo : occurs "%proto" (i_tpl i) = true) by (rewrite <- Kp; destruct (i_proto i); [reflexivity|congruence]).
-    rewrite forallb_forall in Honly. specialize (Honly _ Ht). rewrite Hpo in Honly. cbn [negb orb] in Honly.
-    apply String.eqb_eq in Honly.
-    rewrite Honly in Hti. destruct (tpl_insts_proto a o types_tpl i Hs Hp Hsub Hti) as (u & Hu & Ep & Es & Ev).
-    exists u. split; [assumption|]. rewrite (inst_eta i), Honly, Ep, Es, Ev. reflexivity.
+  revert r. induction l as [|y l IH]; intros r H x Hx; [contradiction|]. simpl in H.
+  apply bind_ok in H as (a & -> & H). apply bind_ok in H as (b & Hb & _).
+  destruct Hx as [<-|Hx]; [eauto | eapply IH; eauto].
+Qed.
+Lemma collect_in {A} (l : list (res (list A))) : forall r, collect l = Ok r -> forall rx x, In (Ok rx) l -> In x rx -> In x r.
+Proof.
+  induction l as [|y l IH]; intros r H rx x Hl Hx; [contradiction|]. simpl in H.
+  apply bind_ok in H as (a & -> & H). apply bind_ok in H as (b & Hb & H). inversion H; subst r.
+  apply in_or_app. destruct Hl as [E|Hl]; [left; inversion E; now subst | right; eapply IH; eauto].
+Qed.
+Lemma collect_in_inv {A} (l : list (res (list A))) : forall r, collect l = Ok r -> forall x, In x r -> exists rx, In (Ok rx) l /\ In x rx.
+Proof.
+  induction l as [|y l IH]; intros r H x Hx; simpl in H; [inversion H; subst; contradiction|].
+  apply bind_ok in H as (a & -> & H). apply bind_ok in H as (b & Hb & H). inversion H; subst r.
+  apply in_app_or in Hx as [Hx|Hx]; [exists a; split; [now left|assumption]|].
+  destruct (IH b Hb x Hx) as (rx & Hl & Hr). exists rx. split; [now right|assumption].
 Qed.
 
-(* every service of every target proto gets its package: __init__.py, client.py, transports/__init__.py, transports/base.py,
-   for every option set; and a per-service template of the package is only ever rendered for a service of a target proto *)
-Lemma one_package_per_service a o l : shallow a -> instances default_templates a o = Ok l ->
-  (forall tpl u s, In tpl service_pkg_tpls -> In u (ra_protos a) -> In s (u_services u) ->
-                   In (mk_inst tpl (u_sub u) (Some s) None) l) /\
-  (forall i, In i l -> service_tpl (i_tpl i) = true -> occurs "%sub" (i_tpl i) = true ->
-             exists u s, In u (ra_protos a) /\ In s (u_services u) /\ i = mk_inst (i_tpl i) (u_sub u) (Some s) None).
+Lemma prefix_split view : forall sub, is_prefix_list view sub = true -> exists rest, sub = (view ++ rest)%list.
 Proof.
-  intros Hs Hl. split.
+  induction view as [|x view IH]; intros sub H; [exists sub; reflexivity|].
+  destruct sub as [|y sub]; [discriminate|]. simpl in H. apply andb_true_iff in H as [E H]. apply String.eqb_eq in E. subst y.
+  destruct (IH sub H) as [rest ->]. exists rest. reflexivity.
+Qed.
+Lemma is_prefix_app view rest : is_prefix_list view (view ++ rest) = true.
+Proof. induction view; simpl; [reflexivity|]. now rewrite String.eqb_refl. Qed.
+Lemma skipn_app_len {A} (l r : list A) : skipn (List.length l) (l ++ r) = r.
+Proof. induction l; simpl; auto. Qed.
+Lemma firstn_app_len {A} (l r : list A) : firstn (List.length l) (l ++ r) = l.
+Proof. induction l; simpl; [reflexivity|]. now f_equal. Qed.
+
+(* a unit strictly below a view makes the next segment of its sub-package a sub-view *)
+Lemma below_subview a view u n rest : In u (ra_protos a) -> u_sub u = (view ++ n :: rest)%list -> In (view ++ [n])%list (subviews a view).
+Proof.
+  intros Hu E. unfold subviews. apply in_map_iff. exists n. split; [reflexivity|].
+  apply ssort_in, dedup_in. unfold sub_names. apply in_flat_map. exists u. split.
+  - unfold protos_of. apply filter_In. split; [assumption|]. rewrite E. apply is_prefix_app.
+  - rewrite E, firstn_app_len, skipn_app_len, sl_eqb_refl, app_length. simpl.
+    replace (Nat.ltb (List.length view) (List.length view + S (List.length rest))) with true by (symmetry; apply Nat.ltb_lt; lia).
+    simpl. now left.
+Qed.
+(* conversely, when a view has no sub-views every unit with that prefix is exactly in the view *)
+Lemma no_subviews_exact a view u : subviews a view = [] -> In u (ra_protos a) -> is_prefix_list view (u_sub u) = true -> u_sub u = view.
+Proof.
+  intros Hn Hu Hp. destruct (prefix_split view _ Hp) as [[|n rest] E]; [now rewrite E, app_nil_r|].
+  exfalso. pose proof (below_subview a view u n rest Hu E) as H. rewrite Hn in H. contradiction.
+Qed.
+Lemma filter_exact a view skip u : skip = (match subviews a view with [] => false | _ => true end) ->
+  In u (ra_protos a) -> is_prefix_list view (u_sub u) = true ->
+  negb (skip && negb (list_eqb String.eqb (u_sub u) view)) = true -> u_sub u = view.
+Proof.
+  intros Hs Hu Hp Hf. destruct (subviews a view) eqn:E.
+  - now apply (no_subviews_exact a view u E).
+  - subst skip. simpl in Hf. apply negb_true_iff, negb_false_iff in Hf. now apply sl_eqb_eq.
+Qed.
+
+Lemma render_inv_tpl a o tpl : forall fuel view l, render fuel a o tpl view = Ok l -> Forall (fun i => i_tpl i = tpl) l.
+Proof.
+  induction fuel as [|f IH]; intros view l H; [discriminate|].
+  rewrite render_S in H. destruct (negb (ggate o tpl)); [inversion H; constructor|].
+  apply bind_ok in H as (below & Hb & H). inversion H; subst l. apply Forall_app. split.
+  - eapply collect_forall; [|exact Hb]. intros rx Hin. apply in_map_iff in Hin as (v & Hr & _). exact (IH v rx Hr).
+  - apply Forall_forall. intros i Hi. now apply kind_insts_basic in Hi.
+Qed.
+
+Definition unit_inst (tpl : string) (u : unit_) : inst := mk_inst tpl (u_sub u) None (Some (u_module u)).
+Definition svc_inst (tpl : string) (u : unit_) (s : string) : inst := mk_inst tpl (u_sub u) (Some s) None.
+
+Lemma render_S_sub f a o tpl view : occurs "%sub" tpl = true -> ggate o tpl = true ->
+  render (S f) a o tpl view =
+  bind (collect (map (render f a o tpl) (subviews a view)))
+       (fun below => Ok (below ++ kind_insts a o tpl view (match subviews a view with [] => false | _ => true end))%list).
+Proof. intros Hs Hg. rewrite render_S, Hs, Hg. reflexivity. Qed.
+
+(* completeness: whatever the depth, a unit below the view is rendered in its own sub-package *)
+Lemma render_units_in a o tpl (kind : unit_ -> list inst) :
+  occurs "%sub" tpl = true -> ggate o tpl = true ->
+  (forall view skip u, In u (ra_protos a) -> u_sub u = view -> incl (kind u) (kind_insts a o tpl view skip)) ->
+  forall fuel view l u, render fuel a o tpl view = Ok l -> In u (ra_protos a) -> is_prefix_list view (u_sub u) = true ->
+  incl (kind u) l.
+Proof.
+  intros Hsub Hg Hkind. induction fuel as [|f IH]; intros view l u H Hu Hp; [discriminate|].
+  rewrite (render_S_sub f a o tpl view Hsub Hg) in H. apply bind_ok in H as (below & Hb & H). inversion H; subst l.
+  destruct (prefix_split view _ Hp) as [[|n rest] E].
+  - rewrite app_nil_r in E. apply incl_appr. now apply Hkind.
+  - apply incl_appl. pose proof (below_subview a view u n rest Hu E) as Hv.
+    assert (Hin : In (render f a o tpl (view ++ [n])) (map (render f a o tpl) (subviews a view))) by now apply in_map.
+    destruct (collect_ok_all _ _ Hb _ Hin) as [rx Erx]. intros x Hx.
+    apply (collect_in _ _ Hb rx x); [now rewrite <- Erx|].
+    apply (IH (view ++ [n])%list rx u Erx Hu); [|assumption]. rewrite E.
+    replace (view ++ n :: rest)%list with ((view ++ [n]) ++ rest)%list by (rewrite <- app_assoc; reflexivity). apply is_prefix_app.
+Qed.
+(* soundness: every instance comes from a block of some view *)
+Lemma render_blocks a o tpl : occurs "%sub" tpl = true ->
+  forall fuel view l i, render fuel a o tpl view = Ok l -> In i l ->
+  ggate o tpl = true /\ exists v, In i (kind_insts a o tpl v (match subviews a v with [] => false | _ => true end)).
+Proof.
+  intros Hsub. induction fuel as [|f IH]; intros view l i H Hi; [discriminate|].
+  rewrite render_S in H. destruct (ggate o tpl) eqn:Hg; cbn [negb] in H; [|inversion H; subst; contradiction].
+  rewrite Hsub in H. apply bind_ok in H as (below & Hb & H). inversion H; subst l.
+  apply in_app_or in Hi as [Hi|Hi]; [|split; [reflexivity|eauto]].
+  destruct (collect_in_inv _ _ Hb i Hi) as (rx & Hl & Hr). apply in_map_iff in Hl as (v & Ev & _). exact (IH v rx i Ev Hr).
+Qed.
+
+Lemma instances_in templates a o l : instances templates a o = Ok l -> forall tpl rx,
+  In tpl (client_templates templates) -> render (2 + max_sub_len a) a o tpl [] = Ok rx -> incl rx l.
+Proof.
+  intros H tpl rx Ht Hr x Hx. unfold instances in H. destruct (existsb _ _); [discriminate|].
+  apply (collect_in _ _ H rx x); [|assumption]. rewrite <- Hr. apply in_map_iff. exists tpl. auto.
+Qed.
+Lemma instances_ok_tpl templates a o l : instances templates a o = Ok l -> forall tpl,
+  In tpl (client_templates templates) -> exists rx, render (2 + max_sub_len a) a o tpl [] = Ok rx.
+Proof.
+  intros H tpl Ht. unfold instances in H. destruct (existsb _ _); [discriminate|].
+  apply (collect_ok_all _ _ H). apply in_map_iff. exists tpl. auto.
+Qed.
+Lemma instances_in_inv templates a o l i : instances templates a o = Ok l -> In i l ->
+  exists tpl rx, In tpl (client_templates templates) /\ render (2 + max_sub_len a) a o tpl [] = Ok rx /\ In i rx.
+Proof.
+  intros H Hi. unfold instances in H. destruct (existsb _ _); [discriminate|].
+  destruct (collect_in_inv _ _ H i Hi) as (rx & Hl & Hr). apply in_map_iff in Hl as (tpl & E & Ht). eauto.
+Qed.
+
+(* exactly the target protos get a types module, for proto sub-packages of any depth: each target proto has an instance of the
+   types template in its own sub-package, and every instance of a per-proto template is one of these *)
+Lemma one_types_module_per_target_proto a o l : instances default_templates a o = Ok l ->
+  (forall u, In u (ra_protos a) -> In (unit_inst types_tpl u) l) /\
+  (forall i, In i l -> i_proto i <> None -> exists u, In u (ra_protos a) /\ i = unit_inst types_tpl u).
+Proof.
+  intros Hl. destruct types_tpl_facts as (Hin & Hp & Hsub & Hg & Honly). split.
+  - intros u Hu. destruct (instances_ok_tpl _ a o l Hl types_tpl Hin) as [rx Hr].
+    apply (instances_in _ a o l Hl types_tpl rx Hin Hr).
+    apply (render_units_in a o types_tpl (fun u => [unit_inst types_tpl u]) Hsub (Hg o)) with (fuel := 2 + max_sub_len a) (view := []) (u := u);
+      [|assumption|assumption|reflexivity|now left].
+    intros view skip u0 Hu0 E x [<-|[]]. unfold kind_insts. rewrite Hp. apply in_map_iff. exists u0. split; [unfold unit_inst, mk_inst; now rewrite E|].
+    apply filter_In. split; [unfold protos_of; apply filter_In; split; [assumption|rewrite E; apply is_prefix_list_refl]|].
+    rewrite E, sl_eqb_refl. simpl. now rewrite andb_false_r.
+  - intros i Hi Hnone. destruct (instances_in_inv _ a o l i Hl Hi) as (tpl & rx & Ht & Hr & Hx).
+    destruct (occurs "%proto" tpl) eqn:Kp.
+    + rewrite forallb_forall in Honly. specialize (Honly _ Ht). rewrite Kp in Honly. cbn [negb orb] in Honly.
+      apply String.eqb_eq in Honly. subst tpl.
+      destruct (render_blocks a o types_tpl Hsub _ _ _ i Hr Hx) as (_ & v & Hk).
+      unfold kind_insts in Hk. rewrite Hp in Hk. apply in_map_iff in Hk as (u & <- & Hu). apply filter_In in Hu as [Hu Hf].
+      apply protos_of_incl in Hu as [Hu Hpre]. exists u. split; [assumption|].
+      rewrite <- (filter_exact a v _ u eq_refl Hu Hpre Hf). reflexivity.
+    + exfalso. apply Hnone. clear - Hr Hx Kp. revert rx Hr Hx. generalize (2 + max_sub_len a) as fuel. generalize (@nil string) as view.
+      intros view fuel. revert view. induction fuel as [|f IH]; intros view rx Hr Hx; [discriminate|].
+      rewrite render_S in Hr. destruct (negb (ggate o tpl)); [inversion Hr; subst; contradiction|].
+      apply bind_ok in Hr as (below & Hb & Hr). inversion Hr; subst rx. apply in_app_or in Hx as [Hx|Hx].
+      * destruct (collect_in_inv _ _ Hb i Hx) as (r0 & Hl0 & Hr0). apply in_map_iff in Hl0 as (v & Ev & _). exact (IH v r0 Ev Hr0).
+      * destruct (kind_insts_kind a o tpl view _ i Hx) as [_ K]. rewrite Kp in K. destruct (i_proto i); [discriminate|reflexivity].
+Qed.
+
+(* every service of every target proto gets its package (__init__.py, client.py, transports/__init__.py, transports/base.py), in
+   the proto's sub-package of any depth and for every option set; and a per-service template with %sub is only ever rendered
+   for a service of a target proto, in that proto's sub-package *)
+Lemma one_package_per_service a o l : instances default_templates a o = Ok l ->
+  (forall tpl u s, In tpl service_pkg_tpls -> In u (ra_protos a) -> In s (u_services u) -> In (svc_inst tpl u s) l) /\
+  (forall i, In i l -> service_tpl (i_tpl i) = true -> occurs "%sub" (i_tpl i) = true ->
+             exists u s, In u (ra_protos a) /\ In s (u_services u) /\ i = svc_inst (i_tpl i) u s).
+Proof.
+  intros Hl. split.
   - intros tpl u s Ht Hu Hsv. pose proof service_pkg_facts as F. rewrite forallb_forall in F. specialize (F tpl Ht).
     apply andb_true_iff in F as [F Hle]. apply andb_true_iff in F as [F Hsa]. apply andb_true_iff in F as [F Hsub].
-    apply andb_true_iff in F as [Hmem Hst].
-    rewrite (instances_shallow _ a o l Hs Hl). apply in_flat_map. exists tpl. split; [now apply mem_str_in|].
-    apply service_in; auto; [|now apply sgate_always_sound].
-    (* no global gate applies: ggate_le "" tpl says tpl passes whenever the (ungated) empty name does *)
-    apply (ggate_le_sound "" tpl o Hle). destruct o as [m t u0 r]. destruct m, u0; reflexivity.
-  - intros i Hi Hst Hsub. destruct (in_instances_tpl _ a o l i Hs Hl Hi) as [_ Hti].
-    destruct (tpl_insts_service a o (i_tpl i) i Hs Hst Hsub Hti) as (s & u & Es & Ep & Hu & Hsu & Ev & _).
-    exists u, s. repeat split; auto. rewrite (inst_eta i) at 1. now rewrite Es, Ep, Ev.
+    apply andb_true_iff in F as [Hmem Hst]. apply mem_str_in in Hmem.
+    assert (Hg : ggate o tpl = true).
+    { apply (ggate_le_sound "" tpl o Hle). destruct o as [m t u0 r]. destruct m, u0; reflexivity. }
+    destruct (instances_ok_tpl _ a o l Hl tpl Hmem) as [rx Hr]. apply (instances_in _ a o l Hl tpl rx Hmem Hr).
+    apply (render_units_in a o tpl (fun u => map (svc_inst tpl u) (u_services u)) Hsub Hg) with (fuel := 2 + max_sub_len a) (view := []) (u := u);
+      [|assumption|assumption|reflexivity|now apply in_map].
+    intros view skip u0 Hu0 E x Hx. apply in_map_iff in Hx as (s0 & <- & Hs0).
+    unfold service_tpl in Hst. apply andb_true_iff in Hst as [K1 K2]. apply negb_true_iff in K1.
+    unfold kind_insts. rewrite K1, K2. apply in_map_iff. exists (s0, view). split; [unfold svc_inst, mk_inst; now rewrite E|].
+    apply filter_In. split.
+    + unfold services_of. apply in_flat_map. exists u0. split.
+      * apply -> in_rev. unfold protos_of. apply filter_In. split; [assumption|rewrite E; apply is_prefix_list_refl].
+      * rewrite <- E. apply in_map_iff. exists s0. auto.
+    + cbn [snd]. rewrite sl_eqb_refl, (sgate_always_sound tpl o Hsa). simpl. now rewrite andb_false_r.
+  - intros i Hi Hst Hsub. destruct (instances_in_inv _ a o l i Hl Hi) as (tpl & rx & Ht & Hr & Hx).
+    assert (Et : i_tpl i = tpl).
+    { pose proof (render_inv_tpl a o tpl _ _ _ Hr) as Hall. rewrite Forall_forall in Hall. now apply Hall. }
+    rewrite Et in *. destruct (render_blocks a o tpl Hsub _ _ _ i Hr Hx) as (_ & v & Hk).
+    unfold service_tpl in Hst. apply andb_true_iff in Hst as [K1 K2]. apply negb_true_iff in K1.
+    unfold kind_insts in Hk. rewrite K1, K2 in Hk. apply in_map_iff in Hk as ([s sub] & <- & Hsv).
+    apply filter_In in Hsv as [Hsv Hf]. cbn [snd fst] in *. apply andb_true_iff in Hf as [Hf _].
+    unfold services_of in Hsv. apply in_flat_map in Hsv as (u & Hu & Hsv). apply in_rev, protos_of_incl in Hu as [Hu Hpre].
+    apply in_map_iff in Hsv as (s' & E & Hs'). inversion E; subst s' sub.
+    exists u, s. repeat split; auto. unfold svc_inst. now rewrite (filter_exact a v _ u eq_refl Hu Hpre Hf).
 Qed.
 
 (* the name of a types module, for every well-formed API: <root>/[<sub>/]types/<module>.py *)
@@ -1105,49 +1285,60 @@ Proof.
 Qed.
 
 (* ------------------------------------------------------------------ dependency files *)
-(* every target proto of the model stems from a request file whose package has the target package as a STRING prefix ... *)
 Definition target_package (files : list pfile) (to_generate : list string) : string :=
   rstrip_dots (commonprefix (map pf_package (filter (fun f => mem_str (pf_name f) to_generate) files))).
-Lemma protos_from_prefixed_files files to_generate o a : build_rapi files to_generate o = Ok a ->
+(* in_pkg is membership in the package tree, not a textual prefix *)
+Lemma in_pkg_spec package p : in_pkg package p = true ->
+  package = "" \/ p = package \/ exists rest, p = package ++ "." ++ rest.
+Proof.
+  unfold in_pkg. intro H. apply orb_true_iff in H as [H|H]; [apply orb_true_iff in H as [H|H]|].
+  - left. destruct package; [reflexivity|discriminate].
+  - right. left. now apply String.eqb_eq.
+  - right. right. unfold starts_with in H. destruct (strip_prefix (package ++ ".") p) as [r|] eqn:E; [|discriminate].
+    apply strip_prefix_sound in E. exists r. now rewrite E, sapp_assoc.
+Qed.
+(* nothing_for_dependency_files: every proto that gets a module stems from a request file whose package is the target package
+   or one of its sub-packages; files of any other package (dependencies) contribute nothing *)
+Lemma nothing_for_dependency_files files to_generate o a : build_rapi files to_generate o = Ok a ->
   forall u, In u (ra_protos a) ->
-  exists f, In f (sanitize_all [] files) /\ starts_with (target_package files to_generate) (pf_package f) = true
-            /\ u_module u = proto_module (pf_name f).
+  exists f, In f (sanitize_all [] files) /\ u_module u = proto_module (pf_name f) /\
+            (target_package files to_generate = "" \/ pf_package f = target_package files to_generate
+             \/ exists rest, pf_package f = target_package files to_generate ++ "." ++ rest).
 Proof.
   unfold build_rapi, target_package. cbv zeta. intros H u Hu. apply bind_ok in H as (n & _ & H). inversion H; subst a. clear H.
   cbn [ra_protos] in Hu. apply in_map_iff in Hu as (f & <- & Hf). apply filter_In in Hf as [Hf Hp].
-  exists f. auto.
+  exists f. split; [assumption|]. split; [reflexivity|]. now apply in_pkg_spec.
 Qed.
-(* ... which is not the same as belonging to the target package: a dependency-only file of package a.b.v1beta1 is taken for a
-   target of a.b.v1 and gets a types module (finding) *)
-Lemma nothing_for_dependency_files_refuted :
-  exists files to_generate names,
-    generate default_templates files to_generate "" false false = Ok (names, 1) /\
-    exists dep, In dep files /\ mem_str (pf_name dep) to_generate = false /\ pf_package dep = "a.b.v1beta1" /\
-                forallb (fun f => negb (mem_str (pf_name f) to_generate) || String.eqb (pf_package f) "a.b.v1") files = true /\
-                In "a/b_v1/types/dep.py" names.
-Proof.
-  exists [mkPF "a/b/v1beta1/dep.proto" "a.b.v1beta1" []; mkPF "a/b/v1/top.proto" "a.b.v1" ["Top"]], ["a/b/v1/top.proto"].
-  eexists. split; [vm_compute; reflexivity|]. exists (mkPF "a/b/v1beta1/dep.proto" "a.b.v1beta1" []).
-  split; [now left|]. split; [reflexivity|]. split; [reflexivity|]. split; [reflexivity|].
-  apply mem_str_in. vm_compute. reflexivity.
-Qed.
+(* the former witness of the textual-prefix defect: the dependency of package a.b.v1beta1 gets nothing *)
+Example dependency_example :
+  exists names,
+    generate default_templates [mkPF "a/b/v1beta1/dep.proto" "a.b.v1beta1" []; mkPF "a/b/v1/top.proto" "a.b.v1" ["Top"]]
+             ["a/b/v1/top.proto"] "" false false = Ok (names, 1) /\
+    mem_str "a/b_v1/types/top.py" names = true /\ mem_str "a/b_v1/types/dep.py" names = false /\
+    existsb (fun n => occurs "dep" n) names = false.
+Proof. eexists. split; [vm_compute; reflexivity|]. vm_compute. repeat split. Qed.
 
-(* proto sub-packages nested two levels deep: API.subpackages looks at subpackage[0] at every level, the inner package is never
-   visited and its protos get no types module (finding; the hypothesis "shallow" of the theorems above is needed) *)
+(* proto sub-packages nested two levels deep (the former witness of the subpackage[0] defect): every proto gets its types
+   module and every directory its __init__.py.  The general theorems above are proved for depth <= 1 (hypothesis shallow);
+   deeper nestings are covered by this example, by T1 and by the oracle. *)
 Definition nested_api : rapi :=
   {| ra_ns := "a"; ra_name := "b"; ra_version := "v1"; ra_nv := "b_v1";
-     ra_protos := [mkU "top" [] ["top_svc"]; mkU "mid" ["sub"] []; mkU "low" ["sub"; "deep"] []] |}.
+     ra_protos := [mkU "top" [] ["top_svc"]; mkU "mid" ["sub"] []; mkU "low" ["sub"; "deep"] ["low_svc"]] |}.
 Definition plain_opts : ropts := {| ro_metadata := false; ro_transport := ["grpc"]; ro_unversioned_disabled := false; ro_rest_async := false |}.
-Lemma nested_subpackage_refuted :
-  wf_rapi nested_api false /\ In (mkU "low" ["sub"; "deep"] []) (ra_protos nested_api) /\
-  exists l, instances default_templates nested_api plain_opts = Ok l /\
-            forallb (fun i => negb (option_eqb String.eqb (i_proto i) (Some "low"))) l = true /\
-            existsb (fun i => option_eqb String.eqb (i_proto i) (Some "mid")) l = true.
+Example nested_example :
+  wf_rapi nested_api false /\
+  exists names, candidates default_templates nested_api plain_opts = Ok names /\
+    forallb (fun n => mem_str n names)
+            ["a/b_v1/types/top.py"; "a/b_v1/sub/types/mid.py"; "a/b_v1/sub/deep/types/low.py"; "a/b_v1/__init__.py";
+             "a/b_v1/sub/__init__.py"; "a/b_v1/sub/deep/__init__.py"; "a/b_v1/sub/deep/types/__init__.py";
+             "a/b_v1/sub/deep/services/low_svc/transports/__init__.py"; "a/b_v1/sub/types/__init__.py"] = true /\
+    mem_str "a/b_v1/sub/sub/__init__.py" names = false /\ mem_str "a/b_v1/types/low.py" names = false
+    /\ forallb normalised names = true.
 Proof.
-  split; [|split; [simpl; auto|]].
+  split.
   - constructor; try (vm_compute; reflexivity); [right; vm_compute; reflexivity | right; vm_compute; reflexivity|].
     repeat constructor; vm_compute; reflexivity.
-  - eexists. split; [vm_compute; reflexivity|]. split; vm_compute; reflexivity.
+  - eexists. split; [vm_compute; reflexivity|]. vm_compute. repeat split.
 Qed.
 
 (* ------------------------------------------------------------------ non-vacuity: a non-trivial API satisfying every hypothesis *)
